@@ -5,6 +5,7 @@ import (
 	"encoding/base64"
 	"fmt"
 	"reflect"
+	"strings"
 	"time"
 
 	"verif/engine"
@@ -64,7 +65,14 @@ func c05CheckSubmission(st *engine.Step, pre *world.World, o *world.Obs, post *w
 		}
 		own := post.DB.Users[sec.Owner]
 		p, ok := world.PlainOf(own.Password)
-		if !ok || p != tag.Code || own.RecoverSelector != "" {
+		if len(o.FaultFired) > 0 {
+			// a backend failure excuses the positive obligation, never the safety half: the password
+			// must not have changed while the token that authorised the change is still outstanding
+			if own.Password != pre.DB.Users[sec.Owner].Password && own.RecoverSelector != "" {
+				st.Report(engine.Violation{Rule: "C05/token-not-spent-by-its-use", Attrs: "kind=recover,fault=" + strings.Join(o.FaultFired, "+"),
+					Detail: where + ": under a backend failure the recovery changed the password but left the token outstanding"})
+			}
+		} else if !ok || p != tag.Code || own.RecoverSelector != "" {
 			st.Report(engine.Violation{Rule: "C05/genuine-token-not-accepted", Attrs: "kind=recover,token=" + tag.Note,
 				Detail: fmt.Sprintf("%s: recover-end with the genuine live token of %s (age %s of %s) did not set the new password / spend the token (status %d, handler error %v)",
 					where, sec.Owner, pre.Now.Sub(sec.At), st.S.AB.Config.Modules.RecoverTokenDuration, o.Status, o.ErrLog != "")})
@@ -84,7 +92,12 @@ func c05CheckSubmission(st *engine.Step, pre *world.World, o *world.Obs, post *w
 			return
 		}
 		own := post.DB.Users[sec.Owner]
-		if !own.Confirmed || own.ConfirmSelector != "" {
+		if len(o.FaultFired) > 0 {
+			if own.Confirmed && !pre.DB.Users[sec.Owner].Confirmed && own.ConfirmSelector != "" {
+				st.Report(engine.Violation{Rule: "C05/token-not-spent-by-its-use", Attrs: "kind=confirm,fault=" + strings.Join(o.FaultFired, "+"),
+					Detail: where + ": under a backend failure the account was confirmed but the token was left outstanding"})
+			}
+		} else if !own.Confirmed || own.ConfirmSelector != "" {
 			st.Report(engine.Violation{Rule: "C05/genuine-token-not-accepted", Attrs: "kind=confirm,token=" + tag.Note,
 				Detail: fmt.Sprintf("%s: confirm with the genuine live token of %s did not confirm the account / spend the token", where, sec.Owner)})
 		}
@@ -106,12 +119,18 @@ func c05Model(st *engine.Step) {
 	switch tag.Kind {
 	case "recover_end":
 		if sec := c05ExpectRecover(st, st.Pre, tag.Secret, tag.Code); sec != nil {
+			if len(o.FaultFired) > 0 && st.Post.DB.Users[sec.Owner].RecoverSelector != "" {
+				break // the request failed before the token was spent: storage decides, the token is still outstanding
+			}
 			if s2 := st.Post.Truth.ByVal("rtok", sec.Val); s2 != nil && !s2.Dead {
 				s2.Dead, s2.Why, s2.Used = true, "used", true
 			}
 		}
 	case "confirm":
 		if sec := tokenDenotes(st.Pre, "ctok", tag.Secret); sec != nil {
+			if len(o.FaultFired) > 0 && st.Post.DB.Users[sec.Owner].ConfirmSelector != "" {
+				break
+			}
 			if s2 := st.Post.Truth.ByVal("ctok", sec.Val); s2 != nil && !s2.Dead {
 				s2.Dead, s2.Why, s2.Used = true, "used", true
 			}
@@ -417,8 +436,11 @@ func c05Scenarios(tier string) []engine.Scenario {
 func init() {
 	engine.Register(&engine.Property{
 		ID: "C05", Level: "model_checking",
-		Rule:        "E1 over issue / re-issue / use / expiry histories with a reference model of token acceptance on every submission; E2 battery from every distinct reached state with an outstanding token: single-bit flips of the 64 token bytes, length changes, cross-account splices, values built from storage, dead genuine tokens, alternative base64 spellings - each on a clone, followed by the genuine token on that same clone; classes = near-miss classes and accept/reject kinds hit",
-		Units:       func(tier string) []engine.Unit { return e1Units(c05Scenarios(tier)) },
+		Rule: "E1 over issue / re-issue / use / expiry histories with a reference model of token acceptance on every submission; E2 battery from every distinct reached state with an outstanding token: single-bit flips of the 64 token bytes, length changes, cross-account splices, values built from storage, dead genuine tokens, alternative base64 spellings - each on a clone, followed by the genuine token on that same clone; classes = near-miss classes and accept/reject kinds hit",
+		Units: func(tier string) []engine.Unit {
+			scs := c05Scenarios(tier)
+			return e1Units(append(scs, configVariants(scs, tier, "faults:confirm(|recover-end(")...))
+		},
 		Need:        []string{"recover:accepted", "confirm:accepted", "recover:rejected:rtok:dead(u1)", "near-miss:rtok:bitflip", "near-miss:ctok:bitflip", "second-use:rtok", "second-use:ctok", "near-miss:rtok:splice-own-sel+other-ver", "near-miss:rtok:dead-genuine(superseded)"},
 		Assumptions: []string{"quick tier flips every third bit (all 64 bytes touched), thorough flips all 512", "bounded depth, 3 accounts"},
 	})
